@@ -89,6 +89,8 @@ pub fn run_cli(args: Vec<String>) {
         "irgen" => suites::irgen(&mut rng, count, &mut out),
         "optarith" => suites::optarith(&mut rng, count, &mut out),
         "optdse" => suites::optdse(&mut rng, count, &mut out),
+        "oncechk" => suites::oncechk(&mut rng, count, &mut out),
+        "x86prog" => suites::x86prog(&mut rng, count, &mut out),
         "irecho" => suites::irecho(&mut rng, count, &mut out),
         "sv" => dsuites::smallvec(&mut rng, count, &mut out),
         "expr" => dsuites::expr(&mut rng, count, &mut out),
